@@ -271,9 +271,9 @@ def step_payload(rng, q, step, ctx):
     enc = down if qt not in (proto.T_NULL, proto.T_PRIVATE) else "T"
     pl = None
     if step == "V":
-        kind = rng.randrange(6)
+        kind = rng.choice([0, 0, 0, 1, 2, 3, 4, 5])
         ch = rng.choice([0, 1, 0x7FFFFFFF, 0x80000000, 0xFFFFFFFF, 0xFFFFFFFE, rng.getrandbits(32)])
-        uid = rng.choice([0, 1, 15, 16, 17, 31, 32, 127, 128, 255])
+        uid = rng.choice([0, 1, 15, 16, 17, 31, 32, 127, 128, 129, 0x90, 0xC5, 0xF0, 0xFE, 255, rng.randrange(256)])
         if kind == 0:
             pl = b"VACK" + struct.pack(">I", ch) + bytes([uid])
         elif kind == 1:
